@@ -800,4 +800,4 @@ def rule_signature_randomness_bits(ctx, cfg='prod-all'):
                 n += 1
                 yield Ob('RF-Q', '%s#%s-bits' % (p, fname), ok, 'the random exponent of the signature has ls = ln + lm + lin bits in every ciphersuite',
                          '%s L%s' % (b.file(), st.get('line')), fact=facts, expected='ls of each suite')
-    yield Ob('RF-Q', 'cl03#signature-randomness', n >= 2, 'signing functions whose random exponent was evaluated', '', fact=n, expected='>= 2', nontrivial=False)
+    yield Ob('RF-Q', 'cl03#signature-randomness', n >= 1, 'signing functions whose random exponent was evaluated', '', fact=n, expected='>= 1', nontrivial=False)
